@@ -26,3 +26,8 @@ claim("C16", CORE_TEXT + "C16: stalls inserted at every position of the corpus s
 claim("C17", CORE_TEXT + "C17: 2-3 sessions on disjoint subtrees under a seeded scheduler that holds and releases backend calls; the "
       "interleaved execution must be a behaviour of the multi-session model and each session's transcript must equal its solo run; "
       "non-interference action properties are checked by TLC on MC_Iso.", "TLA+ trace validation of interleavings + solo differential + TLC action properties (MC_Iso)")
+claim("C04", CORE_TEXT + "C04: permission tables (nested, overlapping, duplicated with disagreeing flags, unordered, empty, random) x "
+      "sessions of all 13 permission-checked verbs on aliases of targets of depth 0..3 from varying working directories; the model "
+      "computes the set of admissible verdicts from the nearest entries on the resolved path and a refusal must leave tree and cwd "
+      "unchanged (invariant C04_RefusalIsNoop on MC_Perm, tree snapshot comparison on the implementation).",
+      "TLA+ trace validation over permission tables and path aliases + TLC model check (MC_Perm)")
